@@ -483,6 +483,7 @@ spif_dlinked_list_dup(spif_dlinked_list_t self)
         dest->prev = prev;
     }
     dest->next = (spif_dlinked_list_item_t) NULL;
+    dest->prev = prev;
     tmp->tail = dest;
     return tmp;
 }
